@@ -185,10 +185,17 @@ class TextContent(BaseModel):
         converted_text = ""
         for char in text:
             unicode_int = ord(char)
-            if unicode_int <= 255 and unicode_int != 177:
+            if unicode_int < 128:
                 converted_text += char
+                continue
+            if unicode_int > 0xFFFF:
+                # RTF \u takes a signed 16-bit value: use a UTF-16 surrogate pair
+                offset = unicode_int - 0x10000
+                units = [0xD800 + (offset >> 10), 0xDC00 + (offset & 0x3FF)]
             else:
-                rtf_value = unicode_int - (0 if unicode_int < 32768 else 65536)
+                units = [unicode_int]
+            for unit in units:
+                rtf_value = unit - (0 if unit < 32768 else 65536)
                 converted_text += f"\\uc1\\u{rtf_value}*"
 
         text = converted_text
